@@ -211,7 +211,7 @@ impl Scenario for C09 {
       7 => ROp::BufferTime,
       _ => ROp::BufferCountTime(rng.range(1, 3)),
     };
-    let w = *rng.pick(&[2u32, 5]);
+    let w = *rng.pick(&[2u32, 5, 2, 5, 1000, 1003]);
     let n = rng.range(1, 10);
     let mut steps = Vec::new();
     for i in 0..n {
@@ -234,7 +234,7 @@ impl Scenario for C09 {
 
   fn run(&self, case: &Value) -> Result<Outcome, String> {
     let case: Case = serde_json::from_value(case.clone()).map_err(|e| e.to_string())?;
-    if case.w == 0 || case.w > 50 || case.steps.len() > 20 || matches!(case.op, ROp::BufferCountTime(0)) {
+    if case.w == 0 || case.w > 5000 || case.steps.len() > 20 || matches!(case.op, ROp::BufferCountTime(0)) {
       return Err("bad shape".into());
     }
     let wd = World::new();
